@@ -3,7 +3,7 @@ import Chewing.Props.C06
 import Chewing.Proofs.EditorCursor
 import Chewing.Proofs.EditorBound
 /-!
-# C05 — editing keys act exactly at the cursor and the buffer stays bounded (component level)
+# C05 — editing keys act exactly at the cursor and the buffer stays bounded
 
 Stage A of DESIGN §12: everything that can be said about `CompositionEditor`
 (`src/editor/composition_editor.rs`) alone, for every state and every sequence of its methods.
@@ -27,10 +27,13 @@ What is proved here
 * totality where the editor relies on it: `insert_total`, `backspace_total`, `insert_gap_total`,
   `delete_ok_iff`, `replace_ok_iff`, `remove_front_ok_iff`.
 
-NOT here (needs the editor state machine `src/editor/mod.rs`, later work on top of this model):
-the per-key lift (`syllable_commit_inserts_one`, which key calls which method in which state,
-`easy_symbol_expansion`) and `bounded_after_key` (auto-commit re-establishes `len ≤ limit`; needs
-the tiling theorem of C03).
+Editor level (second half of this file, for every environment): `Reach` / `cursor_le_len_editor`
+(every public operation, every history), the per-key theorems `backspace_key`, `delete_key`, `move_key`,
+`symbol_key_inserts_at_cursor`, `easy_symbol_expansion`, `syllable_commit_inserts_one`,
+`syllable_commit_no_word`, and the bound `tryAutoCommit_bound`, `bounded_after_absorb`,
+`bounded_after_key` (under `TilingEnv`, C03's theorem about the engines, as a hypothesis on `env`).
+The per-key theorems are stated on `dispatch` (the state's `next`), i.e. before the auto-commit tail;
+`tail_com` + `tryAutoCommit_bound` say what the tail adds (a prefix is cut off, cursor shifted).
 -/
 namespace Chewing.C05
 open Chewing Chewing.C04
@@ -985,5 +988,135 @@ theorem syllable_commit_no_word {e : Editor D L} {ev : KeyEvent} {sh : Shared D 
   exact ⟨rfl, rfl⟩
 
 end EditorSyl
+
+/-! ## The buffer stays bounded
+
+`try_auto_commit` runs after every key whose state machine step ends in `Entering` with *absorb*.
+Its loop removes whole leading intervals of the current conversion until at most
+`auto_commit_threshold` symbols remain — this needs the conversion to cover the buffer
+(`TilingEnv`: every alternative the engine returns is well formed and its interval lengths sum to the
+buffer length; that is what C03 proves about the real engines, here it is a hypothesis on `env`). -/
+
+section EditorBounded
+variable {D L : Type} (env : Env D L)
+
+/-- hypothesis on the conversion engine (C03): every alternative covers the buffer -/
+def TilingEnv : Prop :=
+  ∀ (k : EngineKind) (d : D) (c : Composition) (paths : List (List Interval)),
+    env.convert k d c = .ok paths → ∀ ivs ∈ paths, TilesLen ivs c.len
+
+/-- `try_auto_commit` re-establishes `len ≤ threshold` (and with a tiling conversion its loop neither
+    underflows nor over-removes: no panic beyond a panic of the engine itself); only a prefix is removed -/
+theorem tryAutoCommit_bound (ht : TilingEnv env) {sh sh2 : Shared D L} (h : Shared.tryAutoCommit env sh = .ok sh2) :
+    sh2.com.len ≤ sh2.options.autoCommitThreshold ∧ sh2.options = sh.options ∧
+    ∃ n, sh2.com.symbols = sh.com.symbols.drop n ∧ sh2.com.cursor = sh.com.cursor - n := by
+  unfold Shared.tryAutoCommit at h
+  dsimp only at h
+  split at h
+  · next hle => cases h; exact ⟨hle, rfl, 0, by simp, rfl⟩
+  · next hgt =>
+    split at h
+    · cases h
+    · cases h
+    · rename_i ivs hc
+      obtain ⟨paths, hp, hm⟩ := conversion_mem env hc
+      obtain ⟨hwf, hsum⟩ := ht _ _ _ _ hp ivs hm
+      obtain ⟨buf', r', h1, _, h3, h4⟩ :=
+        autoCommitTake_bound sh.com.len sh.options.autoCommitThreshold ivs [] 0 hwf (by rw [Nat.zero_add]; exact hsum)
+      rw [h1] at h
+      dsimp only at h
+      split at h
+      · rename_i com hq
+        cases h
+        obtain ⟨_, hs, hcur, _⟩ := remove_front_frame _ _ _ hq
+        refine ⟨?_, rfl, r', hs, hcur⟩
+        show com.inner.symbols.length ≤ _
+        have : com.inner.symbols = sh.com.inner.symbols.drop r' := hs
+        rw [this, List.length_drop]
+        exact h4
+      · cases h
+      · cases h
+
+/-- with a tiling conversion the auto-commit never panics on its own account -/
+theorem tryAutoCommit_total (ht : TilingEnv env) (sh : Shared D L) (hc : CompInv sh.com.inner)
+    {ivs : List Interval} (hconv : Shared.conversion env sh = .ok ivs) :
+    ∃ sh2, Shared.tryAutoCommit env sh = .ok sh2 := by
+  unfold Shared.tryAutoCommit
+  dsimp only
+  split
+  · exact ⟨_, rfl⟩
+  · rw [hconv]
+    dsimp only
+    obtain ⟨paths, hp, hm⟩ := conversion_mem env hconv
+    obtain ⟨hwf, hsum⟩ := ht _ _ _ _ hp ivs hm
+    obtain ⟨buf', r', h1, _, h3, _⟩ :=
+      autoCommitTake_bound sh.com.len sh.options.autoCommitThreshold ivs [] 0 hwf (by rw [Nat.zero_add]; exact hsum)
+    rw [h1]
+    dsimp only
+    have := (remove_front_ok_iff sh.com r' hc).mpr h3
+    obtain ⟨com, hq⟩ := this
+    rw [hq]
+    exact ⟨_, rfl⟩
+
+/-- **every absorbed key that ends in `Entering` re-establishes `len ≤ auto_commit_threshold`** —
+    from any state (typing, a chosen candidate, a cancelled list, the end of a highlight), for every
+    threshold including one lowered by a configuration call just before -/
+theorem bounded_after_absorb (ht : TilingEnv env) {e e' : Editor D L} {ev : KeyEvent}
+    (h : e.processKey env ev = .ok (e', .absorb)) (he : e'.state = .entering) :
+    e'.shared.com.len ≤ e'.shared.options.autoCommitThreshold := by
+  obtain ⟨sh, st, _, h2⟩ := processKey_split env h
+  obtain ⟨hst, hb, _⟩ := tail_spec env h2
+  obtain ⟨sh2, h1, hcom, hopt, _, hlast, _⟩ := tail_com env h2
+  rw [hcom, hopt]
+  split at h1
+  · exact (tryAutoCommit_bound env ht h1).1
+  · next hn =>
+    cases h1
+    exfalso
+    apply hn
+    have : sh.last = .absorb := by rw [← hlast]; exact hb.symm
+    rw [← hst, he, this]
+    rfl
+
+/-- **after every key handled in `Entering` that is absorbed or commits, the buffer is no longer than
+    the configured maximum** (an explicit commit empties it; everything else goes through the
+    auto-commit) -/
+theorem bounded_after_key (ht : TilingEnv env) {e e' : Editor D L} {ev : KeyEvent} {b : KB}
+    (hs : e.state = .entering) (h : e.processKey env ev = .ok (e', b)) (he : e'.state = .entering)
+    (hb : b = .absorb ∨ b = .commit) :
+    e'.shared.com.len ≤ e'.shared.options.autoCommitThreshold := by
+  rcases hb with rfl | rfl
+  · exact bounded_after_absorb env ht h he
+  obtain ⟨sh, st, hd, h2⟩ := processKey_split env h
+  obtain ⟨hst, hb, _⟩ := tail_spec env h2
+  obtain ⟨sh2, h1, hcom, hopt, _, hlast, _⟩ := tail_com env h2
+  rw [hcom, hopt]
+  split at h1
+  · exact (tryAutoCommit_bound env ht h1).1
+  · cases h1
+    have hl : sh.last = .commit := by rw [← hlast]; exact hb.symm
+    rw [dispatch_entering_eq env ev hs] at hd
+    obtain ⟨⟨sh', t⟩, hr, hx⟩ := map_ok hd
+    have hcs := cstep_enteringNext env (preamble e.shared) ev sh' t hr
+    cases t with
+    | toState s =>
+      simp only [applyTrans] at hx; injection hx with h3 h4; subst h3
+      cases hl
+    | spin b' =>
+      simp only [applyTrans] at hx; injection hx with h3 h4; subst h3
+      have : b' = .commit := hl
+      subst this
+      have hem := hcs.1 rfl
+      have h0 : sh'.com.len = 0 := by
+        have h1 : (sh'.com.inner.len == 0) = true := hem
+        exact eq_of_beq h1
+      show sh'.com.len ≤ _
+      omega
+
+/-- non-vacuity of the hypothesis: an engine that answers with one interval per symbol tiles -/
+example : TilesLen [{ start := 0, stop := 1, isPhrase := false, text := [97] }, { start := 1, stop := 3, isPhrase := true, text := [98, 99] }] 3 :=
+  ⟨by decide, by decide⟩
+
+end EditorBounded
 
 end Chewing.C05
